@@ -67,9 +67,9 @@ def replay_program(template, sigma):
     pan = [l for l in txt.splitlines() if 'panicked' in l or 'monomorphization' in l]
     return bool(pan), 'goml program `%s` -> %s' % (src.replace('\n', ' | '), pan[:2] if pan else txt[:200].replace('\n', ' | '))
 
-def ob_mono_roundtrip(r, tier, seed, top, inner, depth, vec_len=(0, 2)):
+def ob_mono_roundtrip(r, tier, seed, top, inner, depth, vec_len=(0, 2), leaves=('TInt32', 'TBool', 'TString', 'TParam', 'TStruct', 'TDyn')):
     W = e2.fresh_world(CRATES); TY = W.tt.find_adt(['tast', 'Ty'], 'compiler')
-    leaves = ['TInt32', 'TBool', 'TString', 'TParam', 'TStruct', 'TDyn']
+    leaves = list(leaves)
     r.bounds = 'template types of depth <= %d: top constructor in %s, inner constructors in %s, leaves %s, type parameters {T, U}, nominal names {A}, component lists of length %d..%d; every parameter instantiated with each of %s' % (
         depth, top, inner, leaves, vec_len[0], vec_len[1], [goml_ty(c) for c in CONCRETE])
     r.assumptions = ['TVar excluded (inference variables are resolved before mono)', 'TApp base is a nominal type', 'oracle: for every template t and substitution s: has_tparam(subst_ty(t, s)) is false, and unify(t, subst_ty(t, s), {}) = Ok(s restricted to the parameters of t)']
@@ -126,7 +126,10 @@ def obligations():
     leaves = ['TInt32', 'TBool', 'TString', 'TParam', 'TStruct', 'TDyn']
     return [Ob('O7.2-mono-roundtrip-d1', 'mono subst_ty/unify round trip: every composite constructor over leaves', ob_mono_roundtrip, ('quick', 'thorough'), 5, dict(top=allc + leaves, inner=leaves, depth=1)),
             Ob('O7.2-mono-roundtrip-d2', 'mono subst_ty/unify round trip: depth 2', ob_mono_roundtrip, ('quick', 'thorough'), 30, dict(top=allc, inner=allc + ['TParam', 'TInt32'], depth=2, vec_len=(1, 1))),
-            Ob('O7.2-mono-roundtrip-d2w', 'mono subst_ty/unify round trip: depth 2, lists of 0..2', ob_mono_roundtrip, ('thorough',), 200, dict(top=allc, inner=allc + ['TParam', 'TInt32'], depth=2, vec_len=(0, 2)))]
+            # component lists of 0..2 at both levels: sharded by top constructor, leaves int32 / T / U (the full leaf set with wide lists exceeds the path limit)
+            Ob('O7.2-mono-roundtrip-d2w-tuple', 'mono subst_ty/unify round trip: depth 2, tuples of 0..2 components', ob_mono_roundtrip, ('thorough',), 100, dict(top=['TTuple'], inner=['TTuple', 'TVec', 'TRef', 'TParam', 'TInt32'], depth=2, vec_len=(0, 2), leaves=('TInt32', 'TParam'))),
+            Ob('O7.2-mono-roundtrip-d2w-func', 'mono subst_ty/unify round trip: depth 2, functions of 0..2 parameters', ob_mono_roundtrip, ('thorough',), 200, dict(top=['TFunc'], inner=['TTuple', 'TParam', 'TInt32'], depth=2, vec_len=(0, 2), leaves=('TInt32', 'TParam'))),
+            Ob('O7.2-mono-roundtrip-d2w-app', 'mono subst_ty/unify round trip: depth 2, applications with 0..2 arguments', ob_mono_roundtrip, ('thorough',), 100, dict(top=['TApp'], inner=['TTuple', 'TApp', 'TVec', 'TParam', 'TInt32'], depth=2, vec_len=(0, 2), leaves=('TInt32', 'TParam')))]
 
 # ----------------------------------------------------------------------------- O7.3 no generic type application survives TypeMono::collapse_type_apps
 def has_app(sh, bases):
